@@ -46,7 +46,23 @@ def end_to_end(chk, n):
     s.close()
     pr = subprocess.Popen([exe, '-listen', 'netflow://127.0.0.1:%d' % port, '-transport', 'file', '-transport.file', out,
                            '-format', 'json', '-addr', '', '-loglevel', 'error'], stdout=subprocess.PIPE, stderr=subprocess.PIPE)
-    time.sleep(0.8)
+    # wait until the collector listens (its port shows up in /proc/net/udp), at most 30 s: datagrams sent before that
+    # are nobody's to lose
+    hexport = ':%04X ' % port
+    for _ in range(600):
+        try:
+            if hexport in open('/proc/net/udp').read():
+                break
+        except OSError:
+            pass
+        time.sleep(0.05)
+    time.sleep(0.1)
+
+    def written():
+        try:
+            return open(out, 'rb').read().count(b'\n')
+        except OSError:
+            return 0
     tx = socket.socket(socket.AF_INET, socket.SOCK_DGRAM)
     recs = 0
     for i in range(n):
@@ -56,10 +72,28 @@ def end_to_end(chk, n):
         recs += k
         if i % 20 == 19:
             time.sleep(0.002)
-    time.sleep(0.3)
+        if i % 100 == 99:
+            # never more than ~100 datagrams (< 30 KB) ahead of what the collector has taken in: the kernel's socket
+            # buffer cannot overflow, whatever the load on the machine (a datagram the kernel drops was never accepted)
+            t0 = time.time()
+            while written() < recs - 600 and time.time() - t0 < 30:
+                time.sleep(0.01)
+    # let the collector take in what is still in the kernel's socket buffer (a datagram it never read is not its to
+    # lose): until everything is written or nothing has moved for 10 s; that Stop also finishes what sits in the QUEUE is
+    # what the udpstop runs above establish, with the decoder held by a hook
+    last, t_last, t0 = -1, time.time(), time.time()
+    while time.time() - t0 < 120:
+        w = written()
+        if w >= recs:
+            break
+        if w != last:
+            last, t_last = w, time.time()
+        elif time.time() - t_last > 10:
+            break
+        time.sleep(0.02)
     pr.send_signal(signal.SIGTERM)
     try:
-        rc = pr.wait(timeout=10)
+        rc = pr.wait(timeout=30)
     except subprocess.TimeoutExpired:
         pr.kill()
         rc = 'timeout'
